@@ -530,6 +530,11 @@ const pThreshold = 1e-9
 // frequencies (all n) and, when C(n,k) is small, subset frequencies.
 func uniformity(res *vlib.Result, variant string, n, k, T int, seed int64) {
 	r := rand.New(rand.NewSource(seed))
+	if pkgLevel(variant) {
+		// the package-level functions draw from math/rand's global source: seed it where the toolchain
+		// still honours rand.Seed (Go <= 1.23); the verdict does not depend on it (p < 1e-9 for any seed)
+		rand.Seed(seed) //nolint:staticcheck
+	}
 	incl := make([]int, n)
 	var subs []int
 	nsub := 0
@@ -554,6 +559,16 @@ func uniformity(res *vlib.Result, variant string, n, k, T int, seed int64) {
 			out = positions(xrand.RSampleIterator(r, iterator.Slice(a), k))
 		case "RSampleStream":
 			o, _ := xrand.RSampleStream(context.Background(), r, stream.FromIterator(iterator.Slice(a)), k)
+			out = positions(o)
+		// the package-level API (what users call): default source
+		case "Sample":
+			out = xrand.Sample(n, k)
+		case "SampleSlice":
+			out = positions(xrand.SampleSlice(a, k))
+		case "SampleIterator":
+			out = positions(xrand.SampleIterator(iterator.Slice(a), k))
+		case "SampleStream":
+			o, _ := xrand.SampleStream(context.Background(), stream.FromIterator(iterator.Slice(a)), k)
 			out = positions(o)
 		}
 		if ok, why := distinctInRange(out, n); !ok || len(out) != k {
@@ -605,6 +620,99 @@ func uniformity(res *vlib.Result, variant string, n, k, T int, seed int64) {
 					variant, n, k, T, seed, trunc(subs), stat, nsub-1, pv),
 				Case: Case{Fn: "uniformity:" + variant, N: n, K: k, Seed: seed, T: T}})
 		}
+	}
+}
+
+func pkgLevel(variant string) bool { return !strings.HasPrefix(variant, "R") }
+
+var pkgVariants = []string{"Sample", "SampleSlice", "SampleIterator", "SampleStream"}
+
+// allSubsetsOccur (quick tier, C19 F2): T draws of k out of n through one entry point; every one of the
+// C(n,k) subsets must occur and every position of the output must see every value of its subset range
+// (the final shuffle). For (n,k) = (4,2), T = 900 a uniform sampler misses a given subset with
+// probability (5/6)^900 < 1e-71: a true-positive-only verdict for any seed of the global source.
+func allSubsetsOccur(res *vlib.Result, variant string, n, k, T int, seed int64) {
+	rand.Seed(seed) //nolint:staticcheck
+	r := rand.New(rand.NewSource(seed))
+	a := items(n)
+	nsub := binom(n, k)
+	subs := make([]int, nsub)
+	first := make([]int, n) // how often position p came first in the output
+	pr := P{"n": n, "k": k, "variant": variant}
+	for t := 0; t < T; t++ {
+		var out []int
+		switch variant {
+		case "Sample":
+			out = xrand.Sample(n, k)
+		case "SampleSlice":
+			out = positions(xrand.SampleSlice(a, k))
+		case "SampleIterator":
+			out = positions(xrand.SampleIterator(iterator.Slice(a), k))
+		case "SampleStream":
+			o, _ := xrand.SampleStream(context.Background(), stream.FromIterator(iterator.Slice(a)), k)
+			out = positions(o)
+		case "RSample":
+			out = xrand.RSample(r, n, k)
+		case "RSampleSlice":
+			out = positions(xrand.RSampleSlice(r, a, k))
+		case "RSampleIterator":
+			out = positions(xrand.RSampleIterator(r, iterator.Slice(a), k))
+		case "RSampleStream":
+			o, _ := xrand.RSampleStream(context.Background(), r, stream.FromIterator(iterator.Slice(a)), k)
+			out = positions(o)
+		}
+		if ok, _ := distinctInRange(out, n); !ok || len(out) != k {
+			return // reported by monitorGlobals / the sample monitors
+		}
+		first[out[0]]++
+		sorted := append([]int{}, out...)
+		sort.Ints(sorted)
+		subs[subsetRank(sorted, n)]++
+	}
+	res.Count("all-subsets-tests")
+	for i, c := range subs {
+		if c == 0 {
+			res.Fail(vlib.Failure{Source: "monitor", Kind: "xrand-sample-not-uniform", Params: pr,
+				What: fmt.Sprintf("%s(n=%d,k=%d): subset #%d of %d never drawn in %d samples (subset counts %v); every subset must be equally likely",
+					variant, n, k, i, nsub, T, subs),
+				Case: Case{Fn: "subsets:" + variant, N: n, K: k, Seed: seed, T: T}})
+			return
+		}
+	}
+	for p, c := range first {
+		if c == 0 {
+			res.Fail(vlib.Failure{Source: "monitor", Kind: "xrand-sample-not-uniform", Params: pr,
+				What: fmt.Sprintf("%s(n=%d,k=%d): position %d never came first in %d samples (counts %v)", variant, n, k, p, T, first),
+				Case: Case{Fn: "subsets:" + variant, N: n, K: k, Seed: seed, T: T}})
+			return
+		}
+	}
+}
+
+// shuffleAllPerms: T shuffles of n items through Shuffle (package level) or RShuffle; every one of the n!
+// orders must occur (n = 3, T = 600: a uniform shuffle misses a given order with probability < 1e-47).
+func shuffleAllPerms(res *vlib.Result, variant string, n, T int, seed int64) {
+	rand.Seed(seed) //nolint:staticcheck
+	r := rand.New(rand.NewSource(seed))
+	seen := map[string]int{}
+	for t := 0; t < T; t++ {
+		a := items(n)
+		if variant == "Shuffle" {
+			xrand.Shuffle(a)
+		} else {
+			xrand.RShuffle(r, a)
+		}
+		seen[fmt.Sprint(positions(a))]++
+	}
+	res.Count("all-perms-tests")
+	fact := 1
+	for i := 2; i <= n; i++ {
+		fact *= i
+	}
+	if len(seen) != fact {
+		res.Fail(vlib.Failure{Source: "monitor", Kind: "xrand-shuffle-not-all-orders", Params: P{"n": n, "variant": variant},
+			What: fmt.Sprintf("%s of %d items: only %d of %d orders occurred in %d shuffles: %v", variant, n, len(seen), fact, T, seen),
+			Case: Case{Fn: "perms:" + variant, N: n, Seed: seed, T: T}})
 	}
 }
 
@@ -767,6 +875,22 @@ func main() {
 			fmt.Println("monitor: uniform within the threshold", r2.Extra)
 			return
 		}
+		if strings.HasPrefix(c.Fn, "subsets:") || strings.HasPrefix(c.Fn, "perms:") {
+			r2 := vlib.NewResult("C19", "")
+			if strings.HasPrefix(c.Fn, "subsets:") {
+				allSubsetsOccur(r2, strings.TrimPrefix(c.Fn, "subsets:"), c.N, c.K, c.T, c.Seed)
+			} else {
+				shuffleAllPerms(r2, strings.TrimPrefix(c.Fn, "perms:"), c.N, c.T, c.Seed)
+			}
+			for _, f := range r2.Failures {
+				fmt.Println("monitor:", f.Kind, f.What)
+			}
+			if len(r2.Failures) > 0 {
+				os.Exit(1)
+			}
+			fmt.Println("monitor: every subset / order occurred")
+			return
+		}
 		im, line := implAndLine(c)
 		fmt.Printf("replay: %s\nimplementation: %s\n", c.Key(), clip(im))
 		k, what, _ := monitor(c)
@@ -807,6 +931,31 @@ func main() {
 	run.batch(cs)
 	res.Exhaustive = true
 
+	// extreme n (C19 F1, "all (n, k, seed)"): Sample over [0, n) for n up to MaxInt with a small k is a
+	// legitimate O(k) call; the sampler's position arithmetic (s.i += int(skip) + 1, next >= n) must not
+	// overflow. (k itself is documented to cost O(k) space, so a huge k is an allocation failure, not a case.)
+	var ext []Case
+	for _, n := range []int{math.MaxInt, math.MaxInt - 1, 1 << 62, 1<<62 + 1, 1 << 53, 1 << 40} {
+		for _, k := range []int{1, 2, 5, 17} {
+			for sd := int64(0); sd < 4; sd++ {
+				ext = append(ext, Case{Fn: "rsample", N: n, K: k, Seed: int64(env.Seed)*13 + sd}, Case{Fn: "sampler", N: n, K: k, Seed: int64(env.Seed)*13 + sd})
+			}
+			ext = append(ext, Case{Fn: "rsample", N: n, K: k, Craft: []int{1, 2, 3, 4}}, Case{Fn: "rsample", N: n, K: k, Craft: []int{8, 7, 6, 5, 9}})
+		}
+	}
+	run.batch(ext)
+	res.Extra["extreme_n_cases"] = len(ext)
+
+	// every tier: "all subsets occur / every order occurs" through EVERY entry point, the package-level
+	// functions (default source) included (C19 F2)
+	for i, v := range append(append([]string{}, pkgVariants...), "RSample", "RSampleSlice", "RSampleIterator", "RSampleStream") {
+		allSubsetsOccur(res, v, 4, 2, 900, int64(env.Seed)*100+int64(i))
+		allSubsetsOccur(res, v, 5, 3, 1500, int64(env.Seed)*100+50+int64(i))
+	}
+	shuffleAllPerms(res, "Shuffle", 3, 600, int64(env.Seed))
+	shuffleAllPerms(res, "RShuffle", 3, 600, int64(env.Seed)+1)
+	shuffleAllPerms(res, "Shuffle", 4, 2400, int64(env.Seed)+2)
+
 	maxBatches := 6
 	if big {
 		maxBatches = 100
@@ -837,6 +986,15 @@ func main() {
 				t = T * 2
 			}
 			uniformity(res, "RSample", c.n, c.k, t, int64(env.Seed)*1000+int64(i))
+		}
+		for i, v := range pkgVariants { // the package-level API: default source
+			for j, c := range []cfg{{5, 2}, {6, 3}, {40, 4}} {
+				if time.Now().After(start.Add(budget)) {
+					res.Count("chi2-skipped-budget")
+					break
+				}
+				uniformity(res, v, c.n, c.k, T/2, int64(env.Seed)*1000+500+int64(i*10+j))
+			}
 		}
 		for i, v := range []string{"RSampleSlice", "RSampleIterator", "RSampleStream"} {
 			for j, c := range []cfg{{5, 2}, {40, 4}} {
